@@ -18,6 +18,8 @@ import (
 	"fmt"
 	"io"
 	"log/slog"
+	"math/rand"
+	"net"
 	"os"
 	"os/exec"
 	"path/filepath"
@@ -25,6 +27,8 @@ import (
 	"strings"
 	"sync"
 	"time"
+
+	"github.com/cuteLittleDevil/go-jt808/service"
 )
 
 type ChildOut struct {
@@ -36,6 +40,7 @@ type ChildOut struct {
 	Viol  []WViol        `json:"viol,omitempty"`
 	Kinds map[string]int `json:"kinds,omitempty"`
 	N     int            `json:"n,omitempty"`
+	Note  string         `json:"note,omitempty"`
 }
 
 var (
@@ -43,10 +48,65 @@ var (
 	childSrv     *Srv
 )
 
-// ChildServer: the one in-process server of this (child) process.
+// ChildServer: the one in-process server of this (child) process.  With VERIF_SLOW_CB=<ms> in the environment
+// its user callbacks (OnReadExecutionEvent / OnWriteExecutionEvent / OnJoinEvent / OnLeaveEvent, which run inside
+// the reader and writer goroutines) sleep 1..<ms> ms four times out of ten.
 func ChildServer() *Srv {
-	childSrvOnce.Do(func() { childSrv = StartSrv(nil) })
+	childSrvOnce.Do(func() {
+		if ms, err := strconv.Atoi(os.Getenv("VERIF_SLOW_CB")); err == nil && ms > 0 {
+			childSrv = startSrvSlow(ms)
+		} else {
+			childSrv = StartSrv(nil)
+		}
+	})
 	return childSrv
+}
+
+type slowEventer struct {
+	max int
+	mu  sync.Mutex
+	rng *rand.Rand
+}
+
+func (e *slowEventer) nap() {
+	e.mu.Lock()
+	hit, d := e.rng.Intn(10) < 4, 1+e.rng.Intn(e.max)
+	e.mu.Unlock()
+	if hit {
+		time.Sleep(time.Duration(d) * time.Millisecond)
+	}
+}
+func (e *slowEventer) OnJoinEvent(_ *service.Message, _ string, _ error) { e.nap() }
+func (e *slowEventer) OnLeaveEvent(_ string)                             { e.nap() }
+func (e *slowEventer) OnNotSupportedEvent(_ *service.Message)            {}
+func (e *slowEventer) OnReadExecutionEvent(_ *service.Message)           { e.nap() }
+func (e *slowEventer) OnWriteExecutionEvent(_ service.Message)           { e.nap() }
+
+func startSrvSlow(maxMS int) *Srv {
+	for attempt := 0; attempt < 20; attempt++ {
+		s := &Srv{Addr: freeAddr(), Rec: NewRecorder()}
+		var n int64
+		var mu sync.Mutex
+		s.G = service.New(service.WithHostPorts(s.Addr),
+			service.WithCustomTerminalEventer(func() service.TerminalEventer {
+				mu.Lock()
+				n++
+				seed := n
+				mu.Unlock()
+				return &slowEventer{max: maxMS, rng: rand.New(rand.NewSource(seed))}
+			}))
+		go s.G.Run()
+		for i := 0; i < 200; i++ {
+			c, err := net.DialTimeout("tcp", s.Addr, 200*time.Millisecond)
+			if err == nil {
+				c.Close()
+				time.Sleep(20 * time.Millisecond)
+				return s
+			}
+			time.Sleep(5 * time.Millisecond)
+		}
+	}
+	panic("server did not start")
 }
 
 // ChildMain: see the protocol above.  Never returns an error: a crash of the server kills the process.
@@ -89,14 +149,16 @@ func ChildMain(args []string) {
 				desc := ""
 				switch f[1] {
 				case "reuse":
-					h, desc = RunReuse(ChildServer(), seed), "witness of finding serial-reuse"
+					h, desc = RunReuse(ChildServer(), seed, false), "witness of finding serial-reuse (no timeouts, disconnect)"
+				case "reuse-timer":
+					h, desc = RunReuse(ChildServer(), seed, true), "witness of finding serial-reuse (the older command's timer completes the newer one)"
 				case "noread":
 					h, desc = RunNoRead(ChildServer(), seed), "witness of finding blocked-write"
 				default:
 					sc := GenW(f[1], seed)
 					h, desc = RunW(ChildServer(), sc), sc.Describe()
 				}
-				o.Desc, o.Viol, o.Kinds, o.N = desc, h.Viol, h.Kinds, h.NCalls
+				o.Desc, o.Viol, o.Kinds, o.N, o.Note = desc, h.Viol, h.Kinds, h.NCalls, h.Note
 				if h.Searchable() {
 					o.Req = h.Request()
 				} else {
@@ -123,13 +185,16 @@ func ChildMain(args []string) {
 
 // DelayCfg: environment of the delay overlay.  Site = 0: every instrumented site delays with probability P %
 // by up to US microseconds; Site = n+1: only site n delays, always, by US microseconds (targeted).
-type DelayCfg struct{ Seed, US, P, Site int }
+// SlowCB = n > 0: the server's user callbacks sleep up to n ms (VERIF_SLOW_CB, see ChildServer).
+type DelayCfg struct{ Seed, US, P, Site, SlowCB int }
 
-func (d DelayCfg) String() string { return fmt.Sprintf("%d:%d:%d:%d", d.Seed, d.US, d.P, d.Site) }
+func (d DelayCfg) String() string {
+	return fmt.Sprintf("%d:%d:%d:%d:%d", d.Seed, d.US, d.P, d.Site, d.SlowCB)
+}
 
 func ParseDelayCfg(s string) DelayCfg {
 	var d DelayCfg
-	fmt.Sscanf(s, "%d:%d:%d:%d", &d.Seed, &d.US, &d.P, &d.Site)
+	fmt.Sscanf(strings.ReplaceAll(s, ":", " "), "%d %d %d %d %d", &d.Seed, &d.US, &d.P, &d.Site, &d.SlowCB)
 	return d
 }
 
@@ -149,6 +214,9 @@ func RunBatch(bin string, d *DelayCfg, par int, jobs []string, limit time.Durati
 			fmt.Sprintf("VERIF_DELAY_P=%d", d.P))
 		if d.Site > 0 {
 			cmd.Env = append(cmd.Env, fmt.Sprintf("VERIF_DELAY_SITE=%d", d.Site-1))
+		}
+		if d.SlowCB > 0 {
+			cmd.Env = append(cmd.Env, fmt.Sprintf("VERIF_SLOW_CB=%d", d.SlowCB))
 		}
 	}
 	cmd.Stdin = strings.NewReader(strings.Join(jobs, "\n") + "\n")
